@@ -333,6 +333,12 @@ func (e *Extractor) Tables(f *types.Func) []*Table {
 				return false
 			}
 		case *ast.AssignStmt:
+			// x := base[lo:hi] (a constant sub-slice given a name before it is used): a read of that range
+			for _, rhs := range x.Rhs {
+				if b, lo, hi, ok := sliceRange(rhs); ok {
+					add(b, false, Range{Lo: lo, Hi: hi, Field: "", How: "named sub-slice", Pos: rhs.Pos()})
+				}
+			}
 			for i, lhs := range x.Lhs {
 				if ie, ok := ast.Unparen(lhs).(*ast.IndexExpr); ok {
 					if b := baseOf(ie.X); b != nil {
